@@ -123,8 +123,23 @@ def check(model: Model, run: Run) -> None:
             if d.endswith('negotiated.peer_as'):
                 srcs[nm] = 'peer'
     # the call default[code](A, B): arguments must be (local, peer) in some order, both present
-    dcalls = [c for c in walk_no_nested(pa.node) if isinstance(c, ast.Call) and isinstance(c.func, ast.Subscript) and dotted(c.func.value) == dname[0]]
-    scalls = [c for c in walk_no_nested(pa.node) if isinstance(c, ast.Call) and isinstance(c.func, ast.Subscript) and dotted(c.func.value) == sname[0]]
+    pal = Loc(model, pa)
+
+    def table_calls(table: str) -> list[ast.Call]:
+        # table[code](...), table.get(code)(...), or through a local bound to one of those lookups
+        out_ = []
+        for c in walk_no_nested(pa.node):
+            if not isinstance(c, ast.Call):
+                continue
+            f_ = pal.resolve(c.func) if isinstance(c.func, ast.Name) else c.func
+            if isinstance(f_, ast.Subscript) and dotted(f_.value) == table:
+                out_.append(c)
+            elif isinstance(f_, ast.Call) and isinstance(f_.func, ast.Attribute) and f_.func.attr == 'get' and dotted(f_.func.value) == table:
+                out_.append(c)
+        return out_
+
+    dcalls = table_calls(dname[0])
+    scalls = table_calls(sname[0])
     for label, calls in (('default', dcalls), ('skip', scalls)):
         ok = len(calls) == 1 and len(calls[0].args) >= 2 and {srcs.get(dotted(calls[0].args[0]) or ''), srcs.get(dotted(calls[0].args[1]) or '')} == {'local', 'peer'}
         run.check(ok, pa.qualname, '%s[code](%s): iBGP/eBGP decided by local_as vs peer_as' % (label, ', '.join(norm(a) for a in calls[0].args[:2]) if calls else ''), pa.loc(calls[0]) if calls else pa.loc(), 'the session type is local AS == peer AS')
@@ -301,6 +316,12 @@ def check(model: Model, run: Run) -> None:
     )
     _r12_no_empty_update(model, run)
 
+    # ------------------------------------------------------------------ R13 the size the UPDATEs are packed for
+    run.rule('C01.R13', 'UPDATEs are packed for the size the PEER can read: Negotiated.msg_size leaves 4096 only when both OPENs announce Extended Message (shared with C07.R1)', floor=1)
+    from .C07 import msg_size_rule
+
+    msg_size_rule(model, run, folder)
+
     # ------------------------------------------------------------------ R6 next-hop self
     run.rule('C01.R6', 'next-hop self is resolved before the RIB: every OutgoingRIB.add_to_rib* / del_from_rib call from configuration/ and reactor/api/ passes Neighbor.resolve_self(route) (or a cached/already resolved route), and _update_rib refuses an unresolved sentinel', floor=4)
     _r6_self(model, run)
@@ -319,13 +340,15 @@ def _r3_aspath(model: Model, run: Run, folder: Folder) -> None:
     asn4_branch = top.body
     names4 = {dotted(x) for st in asn4_branch for x in ast.walk(st) if isinstance(x, (ast.Name, ast.Attribute))}
     rets4 = [r for st in asn4_branch for r in walk_no_nested(st) if isinstance(r, ast.Return)]
-    ok4 = bool(rets4) and 'AS_TRANS' not in names4 and all(('asn4=True' in norm(r) or 'self._packed' in norm(r)) for r in rets4) and all(isinstance(asn4_branch[-1], (ast.If, ast.Return)) for _ in [0])
+    l30 = Loc(model, fi)
+    ok4 = bool(rets4) and 'AS_TRANS' not in names4 and all(('asn4=True' in l30.expand(r.value) or 'self._packed' in l30.expand(r.value)) for r in rets4 if r.value is not None) and all(isinstance(asn4_branch[-1], (ast.If, ast.Return)) for _ in [0])
     run.check(ok4, fi.qualname, 'ASN4 session: 4-byte packing, no AS_TRANS', fi.loc(top), 'with ASN4 negotiated the real AS numbers are sent')
     # the stored-format shortcut must be guarded by self._asn4
-    short_ret = [r for r in rets4 if norm(r.value) == 'self._attribute(self._packed)']
-    if short_ret:
-        g = flat_guards(fi.node, short_ret[0])
-        run.check(any(dotted(t) == 'self._asn4' and pol for t, pol in g), fi.qualname, 'stored bytes reused only when already 4-byte', fi.loc(short_ret[0]), 'stored 2-byte bytes must be re-packed for an ASN4 peer')
+    from ..alpha import value_cases as _vc
+
+    stored = [(fs_, r) for r in rets4 if r.value is not None for fs_, v_ in _vc(l30, r, r.value) if norm(v_) == 'self._attribute(self._packed)']
+    if stored:
+        run.check(all('self._asn4' in fs_ for fs_, _ in stored), fi.qualname, 'stored bytes reused only when already 4-byte', fi.loc(stored[0][1]), 'stored 2-byte bytes must be re-packed for an ASN4 peer')
     rest = fi.node.body[fi.node.body.index(top) + 1 :]
     txt = '\n'.join(norm(s) for s in rest)
 
@@ -361,6 +384,24 @@ def _r3_aspath(model: Model, run: Run, folder: Folder) -> None:
         for n in walk_no_nested(st):
             if isinstance(n, ast.If) and isinstance(n.test, ast.Name) and any('AS4Path' in norm(x) for x in n.body):
                 flag = n.test.id
+    if flag is None:
+        # the same gate written as an early exit:  if not <flag>: return message  /  return message + AS4_PATH
+        from ..alpha import facts as _facts
+
+        l3 = Loc(model, fi)
+        for st in rest:
+            for n in walk_no_nested(st):
+                if isinstance(n, (ast.Return, ast.AugAssign, ast.Assign)) and 'AS4Path' in norm(n):
+                    names_ = [f_ for f_ in _facts(l3, n, keep=['*']) if f_.isidentifier()]
+                    if len(names_) == 1:
+                        flag = names_[0]
+    if flag is not None:
+        # ... and the flag may be the copy of another local (returned by a helper that was inlined)
+        l3 = Loc(model, fi)
+        for _ in range(3):
+            v_ = l3.single(flag)
+            if isinstance(v_, ast.Name):
+                flag = v_.id
     if flag is None:
         run.cannot('the flag gating AS4_PATH was not found in ASPath.pack_attribute')
     else:
@@ -417,8 +458,16 @@ def _r3_aspath(model: Model, run: Run, folder: Folder) -> None:
         c = m4[0]
         orig = bool(c.args) and lf.of(c.args[0]) == {'ORIG'}
         wide = any(k.arg == 'asn4' and folder.fold(k.value, fi.module) is True for k in c.keywords)
-        g = flat_guards(fi.node, c)
-        flagged = any(isinstance(t, ast.Name) and t.id == flag and pol for t, pol in g)
+        from ..alpha import facts as _facts4
+
+        def source_of(nm: str) -> str:
+            for _ in range(3):
+                v_ = l30.single(nm)
+                if isinstance(v_, ast.Name):
+                    nm = v_.id
+            return nm
+
+        flagged = any(f_.isidentifier() and source_of(f_) == flag for f_ in _facts4(l30, c, keep=['*']))
         ok4p = bool(orig) and wide and flagged and 'AS4Path._attribute(' in txt
     run.check(ok4p, fi.qualname, 'AS4_PATH = original path, 4 bytes wide, only when an ASN was substituted', fi.loc(m4[0]) if m4 else fi.loc(), 'RFC 6793 4.2.2: AS4_PATH carries the real path for NEW speakers behind the OLD one')
 
